@@ -807,7 +807,9 @@ def rules(tier):
             ('C04.R9', _mask_insertion), ('C04.R10', _omen_last), ('C04.R11', _omen_cursor), ('C04.R12', r12_output_point_total),
             ('C04.R13', _omen_domain), ('C04.R14', _omen_prune), ('C04.R15', _omen_lengths), ('C04.R16', _omen_cache_hit), ('C04.R17', _omen_memo_key), ('C04.R18', _popped_level),
             # C04-ca: the remaining size lands in is_honeyword - one random value per group instead of the product
-            ('C04.R19', _shared_rule('c17', 'r1_size_bound'))] + _loader_bundle() + []
+            ('C04.R19', _shared_rule('c17', 'r1_size_bound')),
+            # C04-da: save_session writes cur_len, cur_ip in the other order than load_session reads them
+            ('C04.R20', _shared_rule('c15', 'r3_pickle_layout'))] + _loader_bundle() + []
 
 
 META = {
